@@ -823,6 +823,11 @@ impl Sim {
                     Err(_) => self.emit("res panic".to_string()),
                 }
             }
+            "tmig" if !self.tinst => {
+                self.step += 1;
+                self.emit("res err".to_string());
+                self.emit("ts.none".to_string());
+            }
             "tmig" => {
                 self.step += 1;
                 cw2::set_contract_version(&mut self.tdeps.storage, unhex(toks[1]), unhex(toks[2])).unwrap();
